@@ -2,7 +2,7 @@
    Sweep protocol of mps_common.py (Model/Sweep.v); only statements here, every proof is `exact <lemma of
    Proofs/SweepP.v or Proofs/SweepP2.v>`.  Energy / convergence / canonical-form clauses are decided by the oracle of
    harness/c13.py (exact diagonalisation) only; see T13_energy_variational_partial. *)
-From TenpyV Require Import Base.Prelude Model.Sweep Proofs.SweepP Proofs.SweepP2.
+From TenpyV Require Import Base.Prelude Model.Charge Model.Sweep Model.SweepCharge Proofs.SweepP Proofs.SweepP2 Proofs.SweepChargeP.
 
 (* get_sweep_schedule, finite and infinite bc, n = 1, 2, every L > n.  With m right moves (L - n finite, L infinite):
    the schedule has 2m entries; position i is optimised moving right for every i < m and moving left for every
@@ -30,6 +30,44 @@ Proof. exact schedule_covers_full. Qed.
 Theorem T13_no_stale_env : forall L n k, (n = 1 \/ n = 2)%nat -> (n < L)%nat -> no_stale L n k = true.
 Proof. exact no_stale_all. Qed.
 
+(* Charge sector (Model/SweepCharge.v: qtotal bookkeeping of TwoSiteDMRGEngine / SingleSiteDMRGEngine.update_local:
+   theta.qtotal, the qtotal_LR handed to svd_theta / the mixers, determine_qtotal_L_R, gauge_total_charge, set_B, with
+   make_valid exactly where the code has it).  For EVERY chinfo ci (any number of charges, mods >= 1), EVERY L > n,
+   finite or infinite schedule, EVERY prefix of p local updates of k sweeps, EVERY choice of mixer at every step
+   (none / DensityMatrixMixer / SubspaceExpansion) and site charges qs of the right shape: if the eigensolver keeps
+   theta's sector (`keeps`: everything except diag_method='ED_all') and no update raised, then
+   MPS.get_total_charge() = make_valid(sum_i B_i.qtotal) is unchanged. *)
+Theorem T13_charge_sector : forall (ci : chinfo) (fin : bool) (L n k p : nat) (cs : list cfg) (qs qs' : list charge),
+  valid_ci ci -> (n = 1 \/ n = 2)%nat -> (n < L)%nat -> length qs = L -> wfq ci qs -> Forall keeps cs ->
+  run_q ci n qs (firstn p (repeat_list (schedule fin L n) k)) cs = Some qs' ->
+  total_charge ci qs' = total_charge ci qs /\ length qs' = L /\ wfq ci qs'.
+Proof. exact charge_sector_all. Qed.
+
+(* ... and no update raises, for any list of entries that update two different sites (every schedule entry does:
+   schedule_wf), unless the one-site engine runs with a DensityMatrixMixer or SubspaceExpansion is asked to mix
+   neither side. *)
+Theorem T13_charge_no_raise : forall (ci : chinfo) (n : nat), valid_ci ci -> forall es cs qs, wfq ci qs ->
+  (2 <= length qs)%nat -> Forall keeps cs -> Forall (wf_entry n) es -> length cs = length es ->
+  Forall (fun ec => never_raises_cfg n (fst ec) (snd ec)) (combine es cs) ->
+  exists qs', run_q ci n qs es cs = Some qs'.
+Proof. exact run_q_no_raise. Qed.
+
+(* REFUTED (finding, replayed on the code: TFIChain conserve='parity', L = 6, product state with Sigmax applied to two
+   neighbouring sites, SingleSiteDMRGEngine with mixer='DensityMatrixMixer' raises
+   "ValueError: qtotal_LR must add up to theta_qtotal=array([0])"): Mixer.determine_qtotal_L_R compares
+   qtotal_L + qtotal_R with theta.qtotal WITHOUT make_valid, so for a Z_N charge the one-site engine with the
+   two-site fallback raises as soon as the two stored qtotal wrap around. *)
+Theorem T13_charge_one_site_dm_mixer_refuted : exists ci qs e,
+  valid_ci ci /\ wfq ci qs /\ forallb (check_valid ci) qs = true /\ wf_entry 1 e /\ upd_q ci 1 qs e (MixDM, None) = None.
+Proof. exact dm_one_site_raises_ex. Qed.
+
+(* diag_method='ED_all' may move theta to another sector q; two-site engine without mixer: the two new tensors then
+   carry exactly q (the change is absorbed into the right tensor), i.e. the state follows the eigensolver. *)
+Theorem T13_charge_ed_all : forall ci qs i0 upl upr q qs', valid_ci ci -> wfq ci qs -> (2 <= length qs)%nat -> vl ci q ->
+  upd2_q ci qs i0 upl upr (MixNone, Some q) = Some qs' ->
+  make_valid ci (vadd (getq qs' i0) (getq qs' (i0 + 1))) = make_valid ci q.
+Proof. exact upd2_ed_all. Qed.
+
 (* PARTIAL: E >= E0 only in an eigenbasis of H (diagonal d bounded below by E0, integer amplitudes x):
    <x|H|x> >= E0 <x|x>.  Missing: spectral theorem for the dense Hamiltonian; decided by exact diagonalisation in
    harness/c13.py. *)
@@ -49,6 +87,23 @@ Proof. vm_compute. reflexivity. Qed.
 Example T13_example_inf : map (fun e : entry => fst (fst e)) (schedule false 3 1) = [0; 1; 2; 3; 2; 1]%nat.
 Proof. vm_compute. reflexivity. Qed.
 
+(* non-vacuity of T13_charge_sector: U(1) x Z_3, four sites, 7 local updates of the two-site engine with all three
+   mixer kinds; the site charges move, the total [6; 2] does not *)
+Example T13_example_charge :
+  let ci := [1; 3]%Z in let qs := [[2; 1]; [0; 2]; [-1; 0]; [5; 2]]%Z in
+  let cs := [(MixDM, None); (MixSub, None); (MixNone, None); (MixSub, None); (MixDM, None); (MixNone, None); (MixNone, None)] in
+  valid_ci ci /\ wfq ci qs /\ Forall keeps cs /\
+  run_q ci 2 qs (firstn 7 (repeat_list (schedule true 4 2) 2)) cs = Some [[2; 1]; [0; 0]; [-1; 2]; [5; 2]]%Z /\
+  total_charge ci qs = [6; 2]%Z /\ total_charge ci [[2; 1]; [0; 0]; [-1; 2]; [5; 2]]%Z = [6; 2]%Z.
+Proof.
+  cbn zeta. split; [repeat constructor; lia|]. split; [repeat constructor|]. split; [repeat constructor|].
+  split; [vm_compute; reflexivity|]. split; vm_compute; reflexivity.
+Qed.
+
 Print Assumptions T13_schedule_covers.
 Print Assumptions T13_no_stale_env.
 Print Assumptions T13_energy_variational_partial.
+Print Assumptions T13_charge_sector.
+Print Assumptions T13_charge_no_raise.
+Print Assumptions T13_charge_one_site_dm_mixer_refuted.
+Print Assumptions T13_charge_ed_all.
